@@ -278,6 +278,17 @@ func c19Rhp2(r *Run) {
 		var got [][]byte
 		var rerr, herr error
 		raw := r.rng.IntN(3) == 0
+		if raw {
+			// the streaming reader finalises the MAC itself: ciphertext lengths (flag byte + 8-byte prefix + data) that are
+			// multiples of 16, 1 off, and just above the minimum message size
+			for i := range msgs {
+				if r.rng.IntN(2) == 0 {
+					sz := 16*(256+r.rng.IntN(300)) - 9 + []int{0, 0, 1, 15}[r.rng.IntN(4)]
+					msgs[i] = make([]byte, sz)
+					r.fillBytes(msgs[i])
+				}
+			}
+		}
 		ok := withTimeout(20*time.Second, func() {
 			var wg sync.WaitGroup
 			wg.Add(1)
@@ -397,6 +408,8 @@ func c19Rhp3(r *Run) {
 		var got [][]byte
 		var rerr, herr error
 		renterDone := make(chan struct{})
+		errFirst := it%3 == 0 // the first response is an error; the stream must stay usable for what follows
+		var firstErr error
 		id := types.NewSpecifier("Verif")
 		ok := withTimeout(20*time.Second, func() {
 			var wg sync.WaitGroup
@@ -425,6 +438,12 @@ func c19Rhp3(r *Run) {
 					herr = err
 					return
 				}
+				if errFirst {
+					if err := s.WriteResponseErr(errors.New("verif: first response is an error")); err != nil {
+						herr = err
+						return
+					}
+				}
 				for _, m := range msgs {
 					if err := s.WriteResponse(&blobObj{m}); err != nil {
 						herr = err
@@ -446,6 +465,10 @@ func c19Rhp3(r *Run) {
 				if err := s.WriteRequest(id, &blobObj{[]byte("request")}); err != nil {
 					rerr = err
 				} else {
+					if errFirst {
+						var o blobObj
+						firstErr = s.ReadResponse(&o, 1<<20)
+					}
 					for range msgs {
 						var o blobObj
 						if err := s.ReadResponse(&o, 1<<20); err != nil {
@@ -472,8 +495,14 @@ func c19Rhp3(r *Run) {
 		}
 		tampered := tamper >= 0 && tamper < thc.off
 		if !tampered {
+			if errFirst {
+				var re *rhp3.RPCError
+				if !errors.As(firstErr, &re) || !strings.Contains(re.Description, "verif: first response is an error") {
+					r.violate("c19.rhp3-error-delivery", "RHP3: an error response was not delivered as that error: %v", firstErr)
+				}
+			}
 			if rerr != nil || herr != nil || len(got) != len(msgs) {
-				r.violate("c19.rhp3-faithful", "RHP3: an untampered session of %d messages failed: %v / %v", len(msgs), rerr, herr)
+				r.violate("c19.rhp3-faithful", "RHP3: an untampered session of %d messages (error first: %v) failed: %v / %v", len(msgs), errFirst, rerr, herr)
 				continue
 			}
 		} else {
